@@ -284,3 +284,40 @@ func (c *Cron) BadTwice() {
 		c.startJob(e.Job)
 	}
 }
+
+// due test that treats Next == now as not yet due: the entry is examined and skipped although due
+func (c *Cron) BadSkipsExactlyDue() {
+	now := c.now()
+	for _, e := range c.entries {
+		if e.Next.IsZero() || !e.Next.Before(now) {
+			break
+		}
+		c.startJob(e.WrappedJob)
+		e.Prev = e.Next
+		e.Next = e.Schedule.Next(now)
+	}
+}
+
+func (c *Cron) BadSkipsCompareGE() {
+	now := c.now()
+	for _, e := range c.entries {
+		if e.Next.IsZero() || e.Next.Compare(now) >= 0 {
+			continue
+		}
+		c.startJob(e.WrappedJob)
+		e.Prev = e.Next
+		e.Next = e.Schedule.Next(now)
+	}
+}
+
+func (c *Cron) GoodSkipNowBefore() {
+	now := c.now()
+	for _, e := range c.entries {
+		if e.Next.IsZero() || now.Before(e.Next) {
+			break
+		}
+		c.startJob(e.WrappedJob)
+		e.Prev = e.Next
+		e.Next = e.Schedule.Next(now)
+	}
+}
